@@ -344,3 +344,44 @@ Example C19_model_is_source_example :
   src_jackknife FO0 [1%float; 2%float; 3%float] = Some [[2%float; 3%float]; [1%float; 3%float]; [1%float; 2%float]] /\
   src_shuffle FO0 du_new (sample_rng FO0 0) [] (set_seed 2) = None.
 Proof. vm_compute. repeat split; reflexivity. Qed.
+
+(** ** `alea::f64()` on BINARY64 (Flocq's specification of the primitive floats), for EVERY generator state word.
+    The model follows the dependency's source: `((self.u64() >> 11) as f64) * CF64`, `CF64 = 1.0 / ((1u64 << 53) as f64)`.
+    On the carrier [FO t] (any libm table: none is consulted) the conversion of k = u64() >> 11 < 2^53 is exact, the
+    constant is exactly 2^-53 and the product k * 2^-53 is a binary64 number, so NO operation rounds: the draw is the
+    finite double whose real value is k * 2^-53 with 0 <= k < 2^53 — a value of [0, 1 - 2^-53], never 1.0, never NaN,
+    never negative — and the generator state advances exactly as for `u64()`. *)
+From Flocq Require BinarySingleNaN PrimFloat.
+From Compute Require Proofs.C19F64.
+Local Notation finite64 v := (Flocq.IEEE754.BinarySingleNaN.is_finite (Flocq.IEEE754.PrimFloat.Prim2B v) = true).
+Local Notation real64 v := (Flocq.IEEE754.BinarySingleNaN.B2R (Flocq.IEEE754.PrimFloat.Prim2B v)).
+Theorem C19_alea_f64_unit_interval_binary64 :
+  forall (t : libm_table) (s : rng),
+    let k := Z.of_N (N.shiftr (fst (u64 s)) 11) in
+    (0 <= k < 2 ^ 53)%Z /\
+    finite64 (fst (f64 (FO t) s)) /\
+    real64 (fst (f64 (FO t) s)) = (IZR k * / 2 ^ 53)%R /\
+    (0 <= real64 (fst (f64 (FO t) s)) <= 1 - / 2 ^ 53)%R /\
+    is_nan (FO t) (fst (f64 (FO t) s)) = false /\
+    PrimFloat.ltb (fst (f64 (FO t) s)) 1 = true /\
+    PrimFloat.leb 0 (fst (f64 (FO t) s)) = true /\
+    snd (f64 (FO t) s) = snd (u64 s).
+Proof. exact Proofs.C19F64.alea_f64_binary64. Qed.
+(** the primitive behind `as f64` ([ofZ] of the carrier) is exact on every integer below 2^53, and the multiplication by
+    the constant 2^-53 is exact on every such integer (the two facts the theorem composes) *)
+Theorem C19_ofZ_exact_binary64 :
+  forall (t : libm_table) (z : Z), (0 <= z < 2 ^ 53)%Z ->
+    finite64 (ofZ (FO t) z) /\ real64 (ofZ (FO t) z) = IZR z /\
+    cf64 (FO t) = 0x1p-53%float /\ real64 (cf64 (FO t)) = (/ 2 ^ 53)%R /\
+    finite64 (mul (FO t) (ofZ (FO t) z) (cf64 (FO t))) /\
+    real64 (mul (FO t) (ofZ (FO t) z) (cf64 (FO t))) = (IZR z * / 2 ^ 53)%R.
+Proof.
+  intros t z Hz. rewrite Proofs.C19F64.cf64_FO. cbn [ofZ mul FO].
+  destruct (Proofs.C19F64.float_ofZ_exact z Hz) as (A & B). destruct (Proofs.C19F64.mul_cf64_exact z Hz) as (C & D).
+  destruct Proofs.C19F64.cf64_exact as (_ & E). repeat split; assumption.
+Qed.
+(** a concrete draw: seed 42 gives k = 6132318200378678, the double k * 2^-53 *)
+Example C19_example_alea_f64_binary64 :
+  fst (f64 (FO empty_tbl) (set_seed 42)) = 0x1.5c94f97fbb536p-1%float /\
+  Z.of_N (N.shiftr (fst (u64 (set_seed 42))) 11) = 6132318200378678%Z.
+Proof. exact Proofs.C19F64.alea_f64_binary64_ex. Qed.
